@@ -47,6 +47,7 @@ func ValueName(v int) string { return valueAlphabet[v] }
 
 // Viol is the first violation of a sequence.
 type Viol struct {
+	Harness  bool // not a finding: the harness itself failed (I/O error, op outside the alphabet)
 	Sig      string
 	What     string
 	At       int
@@ -161,9 +162,10 @@ func Run(cfg Config, dir string, ops []Op, stats *Stats, trace func(string)) (v 
 		if p := recover(); p != nil {
 			msg := fmt.Sprint(p)
 			v = &Viol{
-				Sig:  "C09/panic/" + r.cur.Kind.String() + "/" + panicClass(msg),
-				What: fmt.Sprintf("[%s] op #%d %q panicked: %s", cfg.Name(), r.curI, r.cur.String(), msg),
-				At:   r.curI, Expected: "no panic", Got: "panic: " + msg,
+				Harness: strings.HasPrefix(msg, "harness:"),
+				Sig:     "C09/panic/" + r.cur.Kind.String() + "/" + panicClass(msg),
+				What:    fmt.Sprintf("[%s] op #%d %q panicked: %s", cfg.Name(), r.curI, r.cur.String(), msg),
+				At:      r.curI, Expected: "no panic", Got: "panic: " + msg,
 			}
 			executed = r.curI + 1
 		}
